@@ -135,6 +135,19 @@ pub fn main() -> ! {
         )
     }));
 
+    // cross-dir rename of a new file
+    t(with_fs(|_| {
+        sfs::create_dir("/d").unwrap();
+        OpenOptions::new().write(true).create(true).open("/a").unwrap();
+        sfs::rename("/a", "/d/a").unwrap();
+        sfs::sync_dir("/d").unwrap();
+        show(
+            "new file renamed into /d; sync_dir(/d)",
+            "old=false new=true",
+            format!("old={} new={}", sfs::exists("/a"), sfs::exists("/d/a")),
+        )
+    }));
+
     println!("--- known findings (inode state keyed by path; no small fix)");
     // F10a
     t(with_fs(|_| {
@@ -177,18 +190,6 @@ pub fn main() -> ! {
         sfs::rename("/a", "/b").unwrap();
         sfs::sync_dir("/").unwrap();
         show("unsynced AAAA; rename a->b; sync_dir", "AAAA", s(sfs::read("/b")))
-    }));
-    // cross-dir rename of a new file
-    t(with_fs(|_| {
-        sfs::create_dir("/d").unwrap();
-        OpenOptions::new().write(true).create(true).open("/a").unwrap();
-        sfs::rename("/a", "/d/a").unwrap();
-        sfs::sync_dir("/d").unwrap();
-        show(
-            "new file renamed into /d; sync_dir(/d)",
-            "old=false new=true",
-            format!("old={} new={}", sfs::exists("/a"), sfs::exists("/d/a")),
-        )
     }));
     // F11
     t(with_fs(|fs| {
